@@ -90,8 +90,12 @@ func comb(r *sx.Rng) (sx.Tree, []sx.Tree) {
 // Gen generates one case; the mix of lockstep / free-running and the scenario shapes depend on the focus.
 func Gen(r *sx.Rng, idx int, focus string) sx.Tree {
 	if (focus == "C04" && r.Chance(25)) || (focus != "C04" && r.Chance(3)) {
-		root, stall := comb(r)
-		return sx.T(sx.L(0), sx.L(2), sx.T(root), sx.T(sx.L(int64(r.Next()>>8)), sx.Ints(r.Range(150, 500), 1)), sx.T(stall...))
+		root, ids := comb(r)
+		if r.Chance(40) { // stalled for the whole emission phase
+			return sx.T(sx.L(0), sx.L(2), sx.T(root), sx.T(sx.L(int64(r.Next()>>8)), sx.Ints(r.Range(150, 500), 1)), sx.T(ids...), sx.T())
+		}
+		// slow consumers: every freed slot is a new chance for two producers to meet at a nearly full buffer
+		return sx.T(sx.L(0), sx.L(2), sx.T(root), sx.T(sx.L(int64(r.Next()>>8)), sx.Ints(r.Range(400, 1500), 1)), sx.T(), sx.T(ids...))
 	}
 	g := &genState{r: r}
 	nroots := sx.Pick(r, 1, 1, 1, 2)
